@@ -49,6 +49,7 @@ def run(prog, R, tier="quick", only_rule=None):
     # rotation + flush never drop an unflushed memtable: memtable ids are unique (also after reopen)
     from rules.props import c06
     c06.c06j(prog, R, rid="C01.n")
+    c06.c06l(prog, R, rid="C01.o")
 
 
 def c01a(prog, R):
